@@ -40,6 +40,7 @@ from pokerkit.state import (
     HoleCardsShowingOrMucking,
     HoleDealing,
     Mode,
+    NoOperation,
     StandingPatOrDiscarding,
     State,
 )
@@ -1143,8 +1144,16 @@ class HandHistory(Iterable[State]):
                             )
 
                 if isinstance(operation, BoardDealing):
-                    if index < 2 or not isinstance(
-                            state.operations[index - 2],
+                    previous_index = index - 2
+
+                    while previous_index >= 0 and isinstance(
+                            state.operations[previous_index],
+                            NoOperation,
+                    ):
+                        previous_index -= 1
+
+                    if previous_index < 0 or not isinstance(
+                            state.operations[previous_index],
                             BoardDealing,
                     ):
                         actions += '/'
@@ -1234,8 +1243,16 @@ class HandHistory(Iterable[State]):
                                 card,
                             )
                 elif isinstance(operation, BoardDealing):
-                    if index < 2 or not isinstance(
-                            state.operations[index - 2],
+                    previous_index = index - 2
+
+                    while previous_index >= 0 and isinstance(
+                            state.operations[previous_index],
+                            NoOperation,
+                    ):
+                        previous_index -= 1
+
+                    if previous_index < 0 or not isinstance(
+                            state.operations[previous_index],
                             BoardDealing,
                     ):
                         actions += '/'
